@@ -698,6 +698,27 @@ def run(h: Harness):
                     if not w4.verify(f"step[{sname}]", f"{sname}.apply on a partly evaluated {name} population, multi-objective fitness function that fills and "
                                      "returns one preallocated list of floats", [line, name, seedv, sname, k, "reused-score-list"]):
                         break
+            # (b-flaky) a fitness function that is NOT a pure function (a transient failure: NaN the first time a program is asked about, a
+            # number afterwards): what an individual cached -- NaN included -- is what it keeps when steps that evaluate their input see it again
+            asked: dict = {}
+
+            def flaky(p, asked=asked):
+                key = repr(p)
+                asked[key] = asked.get(key, 0) + 1
+                return float('nan') if (asked[key] == 1 and len(key) % 2 == 0) else float(len(key) % 13)
+            fproblem = SingleObjectiveProblem(flaky, minimize=False)
+            safe(lambda: ev.evaluate(fproblem, pool))
+            fpool = [p for p in pool if p.has_fitness(fproblem)]
+            if len(fpool) >= 2:
+                w5 = Watch(h, b, fproblem, is_dsge, f'{name}:')
+                w5.add(fpool)
+                for sname, mk in (('tournament', lambda: TournamentSelection(2)), ('elitism', lambda: ElitismStep()),
+                                  ('seq[tournament,mutation]', lambda: SequenceStep(TournamentSelection(2), GenericMutationStep(1)))):
+                    st, out = safe(lambda: list(mk().apply(fproblem, ev, rep, r, list(fpool), rng.randint(1, len(fpool)), 1)))
+                    h.count(f'flaky-fitness-step:{sname}:{st}')
+                    if not w5.verify(f'step[{sname}]', f'{sname}.apply on a {name} population some of whose cached fitness values are NaN (fitness function with '
+                                     'transient failures)', [line, name, seedv, sname, 'flaky-fitness']):
+                        break
             # steps that ran under ANOTHER problem leave what the individuals cached for the first problem as it was
             w2.verify("step[under another problem]", f"steps applied to the {name} population under a second problem (multi-objective, lexicase)",
                       [line, name, seedv, "second-problem"])
